@@ -34,7 +34,7 @@ ASSUMPTIONS = [
 FLOOR = {"quick": 800, "thorough": 10000}
 REQUIRED_LABELS = ["mark:trail", "mark:pre", "decoy:word_later", "decoy:above", "decoy:later_header_line", "decoy:first_body_line", "decoy:in_string",
                    "style:#", "style://", "style:/*", "case:upper", "case:mixed", "spacing:none", "spacing:wide", "with_reason",
-                   "stray:comment_line", "stray:trailing_on_statement", "decoy_on_marked_function"]
+                   "stray:comment_line", "stray:trailing_on_statement", "decoy_on_marked_function", "ordinary_comment_before_marker"]
 
 
 def _neutral(text):
@@ -127,6 +127,9 @@ def decorate(ast, rnd):
             pos = "trail" if lang == "Python" or rnd.random() < 0.65 else "pre"
             if pos == "trail":
                 f["name_tc"] = pair(marker_text(rnd, lang, labels))
+                if lang != "Python" and rnd.random() < 0.3:
+                    f["pre_c"] = rnd.choice(["/* helper */", "/* see docs */", "/**/"])  # an ordinary comment earlier on the same line
+                    labels.add("ordinary_comment_before_marker")
             else:
                 f["pre_c"] = pair(marker_text(rnd, lang, labels, style="/*"))
             labels.add(f"mark:{pos}")
